@@ -113,6 +113,8 @@ def decPort (s : String) : Option (Option Int × Nat) :=
   if s = "~" then some (none, 0)
   else if s = "T" then some (none, 1)
   else if s = "X" then some (none, 2)
+  else if s = "Z" then some (none, 1)            -- False
+  else if s.startsWith "D" then some (none, 2)   -- a float
   else s.toInt?.map (fun n => (some n, 0))
 
 def decBool (s : String) : Bool := s = "T"
